@@ -31,8 +31,10 @@ var (
 	uHosts   = []string{"example.com", "EXAMPLE.com", "example.org", "example.com.", "127.0.0.1", "[::1]", "[::1:8080]", "[fe80::1%25en0]"}
 	uPorts   = []string{"", ":", ":80", ":443", ":8080", ":080"}
 	uPaths   = []string{"", "/", "/a", "/A", "/%61", "/%41", "/a/./b", "/a/b", "/a/c/../b", "/a/%2e/b", "/a/c/%2e%2e/b", "/a/c/%2E%2E/b",
-		"/~x", "/%7Ex", "/%7ex", "/a%2Fb", "/a%2fb", "/a//b", "/a/", "/%E9", "/%e9", "/\xe9", "/%C3%A9", "/é", "/a/../../b", "/.."}
-	uQueries = []string{"", "?", "?q=1", "?q=%31", "?Q=1", "?q=%E9", "?q=%e9", "?q=\xe9", "?q=é", "?q=%C3%A9", "?a=1&b=2", "?b=2&a=1", "?q=a+b", "?q=a%2Bb", "?q=a%2bb", "?q=a%20b"}
+		"/~x", "/%7Ex", "/%7ex", "/a%2Fb", "/a%2fb", "/a//b", "/a/", "/%E9", "/%e9", "/\xe9", "/%C3%A9", "/é", "/a/../../b", "/..",
+		"/d[1]", "/d%5B1%5D", "/m;v=1", "/m%3Bv%3D1", "/x^y", "/x%5Ey", "/p:q@r", "/p%3Aq%40r"}
+	uQueries = []string{"", "?", "?q=1", "?q=%31", "?Q=1", "?q=%E9", "?q=%e9", "?q=\xe9", "?q=é", "?q=%C3%A9", "?a=1&b=2", "?b=2&a=1", "?q=a+b", "?q=a%2Bb", "?q=a%2bb", "?q=a%20b",
+		"?i[]=1", "?i%5B%5D=1", "?q=a%26b", "?q=a%3Db", "?q=a/b?c", "?q=a%2Fb%3Fc"}
 	uFrags   = []string{"", "#f"}
 )
 
@@ -42,15 +44,18 @@ type uCase struct {
 	strict oracle.URIForm
 	loose  oracle.URIForm
 	key    string // observed primary key (first Conn.Get of a GET for this URL)
+	auth   int    // index of the authority block (scheme, userinfo, host, port) the URL belongs to
 }
 
 func uGrammar(tier string) []*uCase {
 	var out []*uCase
 	paths, queries := uPaths, uQueries
+	auth := -1
 	for _, s := range uSchemes {
 		for _, us := range uUsers {
 			for _, h := range uHosts {
 				for _, p := range uPorts {
+					auth++
 					for _, pa := range paths {
 						for _, q := range queries {
 							for _, f := range uFrags {
@@ -59,7 +64,7 @@ func uGrammar(tier string) []*uCase {
 								if err != nil {
 									continue
 								}
-								c := &uCase{raw: raw, u: req.URL}
+								c := &uCase{raw: raw, u: req.URL, auth: auth}
 								c.strict, c.loose = oracle.NormalizeURI(req.URL)
 								out = append(out, c)
 							}
@@ -98,7 +103,7 @@ func observeAllKeys(t *testing.T, e *mc.Explorer, cases []*uCase, tag string) (m
 		var lines []string
 		synctest.Test(t, func(t *testing.T) {
 			for i, c := range cases {
-				if i%e.Shards != shard {
+				if c.auth%e.Shards != shard {
 					continue
 				}
 				k, _, ok := observeKey(c.raw)
@@ -169,6 +174,9 @@ func observeAllKeys(t *testing.T, e *mc.Explorer, cases []*uCase, tag string) (m
 	}
 	return
 }
+
+// confirmSeq requests a (which is stored), then b, on the same transport; reports whether b received a's response.
+func confirmSeq(t *testing.T, a, b string) (reused bool, narrative []string) { return confirmPair(t, a, b) }
 
 func strHash(s string) uint32 { h := fnv.New32a(); h.Write([]byte(s)); return h.Sum32() }
 
@@ -264,6 +272,79 @@ func customC03(t *testing.T, e *mc.Explorer) *mc.ShardResult {
 			}
 		}
 	}
+	// ---- pass 3: the same lookups on ONE long-lived transport per authority block, in grammar order and in
+	// reverse order (store emptied between requests). A key that differs from the one a fresh transport
+	// derives means the key depends on the transport's history; every such case is confirmed end to end.
+	seqObs, seqDiff := 0, 0
+	for _, order := range []string{"forward", "reverse"} {
+		blocks := map[int][]*uCase{}
+		var ids []int
+		for _, c := range cases {
+			if c.auth%e.Shards != e.Shard {
+				continue
+			}
+			if _, ok := blocks[c.auth]; !ok {
+				ids = append(ids, c.auth)
+			}
+			blocks[c.auth] = append(blocks[c.auth], c)
+		}
+		for _, id := range ids {
+			blk := blocks[id]
+			if order == "reverse" {
+				r := make([]*uCase, len(blk))
+				for i, c := range blk {
+					r[len(blk)-1-i] = c
+				}
+				blk = r
+			}
+			type hit struct{ prev, cur *uCase }
+			var cands []hit
+			synctest.Test(t, func(t *testing.T) {
+				w := world.New(world.Opt{})
+				defer w.Close()
+				w.NoWait = true
+				answer(w, RS{Status: 200, H: H("Cache-Control", "no-store")})
+				seenKey := map[string]*uCase{}
+				for _, c := range blk {
+					o := w.Do(world.Req("GET", c.raw))
+					seqObs++
+					if len(o.Ops) == 0 || o.Ops[0].Kind != "get" {
+						continue
+					}
+					k := o.Ops[0].Key
+					if k != c.key {
+						seqDiff++
+						if p, ok := seenKey[k]; ok {
+							cands = append(cands, hit{p, c})
+						}
+					}
+					if _, ok := seenKey[c.key]; !ok {
+						seenKey[c.key] = c
+					}
+				}
+			})
+			res.Executions += int64(len(blk))
+			res.Transitions += int64(2 * len(blk))
+			for _, h := range cands {
+				if h.prev.loose.String() == h.cur.loose.String() {
+					continue // equivalent spellings may share
+				}
+				reused, narr := confirmSeq(t, h.prev.raw, h.cur.raw)
+				pairs++
+				if !reused {
+					continue
+				}
+				sig := "URI collision on a used transport (" + order + " order): differ in " + h.prev.loose.Diff(h.cur.loose)
+				if v, ok := viol[sig]; ok {
+					v.Count++
+					continue
+				}
+				viol[sig] = &mc.Violation{Property: "C03", Signature: sig, Count: 1, Shard: e.Shard, Log: narr,
+					Message: fmt.Sprintf("on one transport, after a request for %q, a response stored for it was returned for %q although the URIs are not equivalent (normal forms %s vs %s)", h.prev.raw, h.cur.raw, h.prev.loose, h.cur.loose),
+					Choices: []int{}, Trace: []mc.Pt{{Label: "store-url", Desc: strconv.Quote(h.prev.raw)}, {Label: "request-url", Desc: strconv.Quote(h.cur.raw)}}}
+			}
+		}
+	}
 	sigs := make([]string, 0, len(viol))
 	for s := range viol {
 		sigs = append(sigs, s)
@@ -275,8 +356,14 @@ func customC03(t *testing.T, e *mc.Explorer) *mc.ShardResult {
 	if res.Extra == nil {
 		res.Extra = map[string]any{}
 	}
-	res.Extra["urls_in_grammar"] = len(cases)
-	res.Extra["distinct_store_keys"] = len(byKey)
+	res.Extra["lookups_on_long_lived_transports"] = seqObs
+	res.Extra["history_dependent_keys"] = seqDiff
+	if e.Shard == 0 { // identical in every shard: reported once (the runner sums numeric extras)
+		res.Extra["urls_in_grammar"] = len(cases)
+	}
+	if e.Shard == 0 {
+		res.Extra["distinct_store_keys"] = len(byKey)
+	}
 	res.Extra["key_collision_pairs_confirmed_end_to_end"] = pairs
 	if len(res.Samples) < 3 && len(cases) > 0 {
 		c := cases[len(cases)/3]
